@@ -178,6 +178,15 @@ var targets2 = []target2{
 		params: []param{ps("height", "uint32", "requestedBlock.Height")}},
 	{file: "pkg/consensus/sync/sync.go", recv: "Syncer", name: "HandleRPCEndpointGetBlocksFromID", lean: "blocksFromIDTo", kind: "rhs", sel: "to", tok: ":=",
 		params: []param{ps("height", "uint32", "requestedBlock.Height"), ps("lastHeight", "uint32", "s.chain.LastBlock().Header.Height")}},
+	// realistic scale (Props/C19_Scale.lean): what the handler of getHighestCommonBlock refuses by the SHAPE of a
+	// request (number of ids, length of an id) vs the number of ids the two synchronisers ask for
+	{file: "pkg/consensus/sync/sync.go", recv: "Syncer", name: "HandleRPCEndpointGetHighestCommonBlock", lean: "hcbRequestRejected", kind: "cond", sel: "len(req.IDs)",
+		params: []param{ps("count", "int", "len(req.IDs)")}},
+	{file: "pkg/consensus/sync/sync.go", recv: "Syncer", name: "HandleRPCEndpointGetHighestCommonBlock", lean: "hcbIDRejected", kind: "cond", sel: "len(id)",
+		params: []param{ps("idLen", "int", "len(id)")}},
+	{file: "pkg/consensus/sync/fast_sync.go", recv: "fastSyncer", name: "getCommonBlock", lean: "fastCommonNum", kind: "index", sel: "getLastHeights",
+		params: []param{ps("validators", "int", "len(ctx.CurrentValidators)")}},
+	{file: "pkg/consensus/sync/block_sync.go", recv: "blockSyncer", name: "getCommonBlockHeader", lean: "blockCommonNum", kind: "index", sel: "getHeightWithGap"},
 
 	// ---- C18: pkg/p2p ---------------------------------------------------------------------------
 	{file: "pkg/p2p/conngater.go", lean: "maxPenaltyScore", kind: "const", sel: "MaxPenaltyScore", want: "int"},
